@@ -135,6 +135,15 @@ def _rewrite_block(stmts: list) -> list:
     out: list = []
     i = 0
     stmts = [_merge_ifelse_calls(x) for x in stmts]
+    merged: list = []
+    for x in stmts:
+        if merged:
+            g2 = _dict_default_pair(merged[-1], x)
+            if g2 is not None:
+                merged[-1] = g2
+                continue
+        merged.append(x)
+    stmts = merged
     while i < len(stmts):
         s = stmts[i]
         # recurse first
@@ -173,6 +182,26 @@ def _rewrite_block(stmts: list) -> list:
                         out.append(ast.fix_missing_locations(ast.copy_location(new, s)))
                         i += 1
                         continue
+                # D: dictionary collection   d = {}; for ..: d[K] = V   ->  d = {K: V for ..}
+                if cond is None and len(tail) == 1 and isinstance(tail[0], ast.Assign) and len(tail[0].targets) == 1 \
+                        and isinstance(tail[0].targets[0], ast.Subscript) and isinstance(tail[0].targets[0].value, ast.Name):
+                    dn = tail[0].targets[0].value.id
+                    k = len(out) - 1
+                    while k >= 0 and dn not in _names_in(out[k]):
+                        k -= 1
+                    if k >= 0 and isinstance(out[k], (ast.Assign, ast.AnnAssign)):
+                        tgt = out[k].targets[0] if isinstance(out[k], ast.Assign) else out[k].target
+                        val = out[k].value
+                        if isinstance(tgt, ast.Name) and tgt.id == dn and isinstance(val, ast.Dict) and not val.keys \
+                                and dn not in _names_in(s.iter) and not any(dn in _names_in(g) for g in guards) \
+                                and dn not in _names_in(tail[0].value) and dn not in _names_in(tail[0].targets[0].slice):
+                            g = _gen(ast.Constant(value=None), s.target, s.iter, guards)
+                            comp = ast.DictComp(key=_sub(tail[0].targets[0].slice, env), value=_sub(tail[0].value, env), generators=g.generators)
+                            new = ast.Assign(targets=[ast.Name(id=dn, ctx=ast.Store())], value=comp, lineno=s.lineno)
+                            moved = out[k + 1:]
+                            out[k:] = moved + [ast.fix_missing_locations(ast.copy_location(new, s))]
+                            i += 1
+                            continue
                 # C: collection
                 app = tail if cond is None else None
                 conds = list(guards)
@@ -237,8 +266,48 @@ def _dict_default(s: ast.stmt) -> Optional[ast.stmt]:
     return None
 
 
+def _dict_default_if(s: ast.stmt) -> Optional[ast.stmt]:
+    """G3  if k in d: X = d[k] else: X = V   ->  X = d.get(k, V)      (also with `return` in both arms, and negated)"""
+    if not (isinstance(s, ast.If) and len(s.body) == 1 and len(s.orelse) == 1 and isinstance(s.test, ast.Compare) and len(s.test.ops) == 1
+            and isinstance(s.test.ops[0], (ast.In, ast.NotIn))):
+        return None
+    a, b = (s.body[0], s.orelse[0]) if isinstance(s.test.ops[0], ast.In) else (s.orelse[0], s.body[0])
+    k, d = s.test.left, s.test.comparators[0]
+
+    def is_lookup(e: ast.AST) -> bool:
+        return isinstance(e, ast.Subscript) and ast.dump(e.value) == ast.dump(d) and ast.dump(e.slice) == ast.dump(k)
+
+    if isinstance(a, ast.Assign) and isinstance(b, ast.Assign) and len(a.targets) == 1 and len(b.targets) == 1 \
+            and ast.dump(a.targets[0]) == ast.dump(b.targets[0]) and is_lookup(a.value):
+        call = ast.Call(func=ast.Attribute(value=copy.deepcopy(d), attr="get", ctx=ast.Load()), args=[copy.deepcopy(k), b.value], keywords=[])
+        return ast.fix_missing_locations(ast.copy_location(ast.Assign(targets=a.targets, value=call, lineno=s.lineno), s))
+    if isinstance(a, ast.Return) and isinstance(b, ast.Return) and a.value is not None and b.value is not None and is_lookup(a.value):
+        call = ast.Call(func=ast.Attribute(value=copy.deepcopy(d), attr="get", ctx=ast.Load()), args=[copy.deepcopy(k), b.value], keywords=[])
+        return ast.fix_missing_locations(ast.copy_location(ast.Return(value=call), s))
+    return None
+
+
+def _dict_default_pair(a: ast.stmt, b: ast.stmt) -> Optional[ast.stmt]:
+    """G2  X = d.get(k); if X is None: X = V   ->  X = d.get(k, V)     (the dict does not hold None)"""
+    if not (isinstance(a, ast.Assign) and len(a.targets) == 1 and isinstance(a.targets[0], ast.Name) and isinstance(a.value, ast.Call)
+            and isinstance(a.value.func, ast.Attribute) and a.value.func.attr == "get" and len(a.value.args) == 1 and not a.value.keywords):
+        return None
+    x = a.targets[0].id
+    if not (isinstance(b, ast.If) and not b.orelse and len(b.body) == 1 and isinstance(b.test, ast.Compare) and len(b.test.ops) == 1
+            and isinstance(b.test.ops[0], ast.Is) and isinstance(b.test.left, ast.Name) and b.test.left.id == x
+            and isinstance(b.test.comparators[0], ast.Constant) and b.test.comparators[0].value is None):
+        return None
+    st = b.body[0]
+    if isinstance(st, ast.Assign) and len(st.targets) == 1 and isinstance(st.targets[0], ast.Name) and st.targets[0].id == x:
+        call = ast.Call(func=a.value.func, args=[a.value.args[0], st.value], keywords=[])
+        return ast.fix_missing_locations(ast.copy_location(ast.Assign(targets=a.targets, value=call, lineno=a.lineno), a))
+    if isinstance(st, ast.Return) and st.value is not None:
+        return None
+    return None
+
+
 def _rewrite_stmt(s: ast.stmt) -> ast.stmt:
-    g = _dict_default(s)
+    g = _dict_default(s) or _dict_default_if(s)
     if g is not None:
         return g
     new = None
